@@ -38,18 +38,17 @@ def call_observer(obj, name):
 
 
 def class_state(obj):
-    """Plain data attributes set on the library classes of the object (class-level state an observer may leave behind)."""
+    """Bindings of the PUBLIC plain attributes of the library classes of the object: the documented class-level settings
+    (text encoder hook, tables) that an observer has no business rebinding or shadowing. Private names (a class is free to keep
+    a cache of its own) and growth inside containers are deliberately not part of it - they are not what the property is about."""
     state = []
     for klass in type(obj).__mro__:
         if not getattr(klass, '__module__', '').startswith('cryptoparser'):
             continue
         for name, value in sorted(vars(klass).items()):
-            if name.startswith('__') or isinstance(value, (type, property, classmethod, staticmethod)) or hasattr(value, '__get__'):
-                continue    # methods, descriptors, nested classes; callable *instances* (encoder hooks) are state
-            if isinstance(value, (dict, list, set)):
-                state.append((klass.__name__, name, id(value), len(value)))
-            else:
-                state.append((klass.__name__, name, id(value)))
+            if name.startswith('_') or isinstance(value, (type, property, classmethod, staticmethod)) or hasattr(value, '__get__'):
+                continue    # private names, methods, descriptors, nested classes; callable *instances* (encoder hooks) count
+            state.append((klass.__name__, name, id(value)))
     return state
 
 
